@@ -56,15 +56,18 @@ theorem C06_runloop_schedules_under_lock (w w' : World) (b' : BId) (i : IId) (b 
   simp [guard, checks, Checks.ok, execActive] at hg
   exact hg.2.2.2.1.1
 
-/-- C10: virtual time never passes the deadline of a handler that is still scheduled, running or awaiting:
-    the handler is cancelled at its deadline, not later. -/
+/-- C10: virtual time never passes the deadline of a handler that is still scheduled, running or awaiting and whose task
+    has not been cancelled yet (nor is a handler running inside its inline activation being cancelled in its stead):
+    the handler is cancelled at its deadline, not later (what it does in its own cleanup afterwards is its business). -/
 theorem C10_time_never_passes_a_live_deadline (w w' : World) (t : Nat) (i : IId)
     (h : step w (.tick t) = some w') (hi : i < w.ni) (hd : (w.inst i).deadline ≠ 0)
-    (hlive : (w.inst i).st ≠ .finished ∧ (w.inst i).st ≠ .ended) : t ≤ (w.inst i).deadline := by
+    (hlive : (w.inst i).st ≠ .finished ∧ (w.inst i).st ≠ .ended) (hnc : (w.inst i).cancelling = false)
+    (hnp : cancelInProgress w i = false) :
+    t ≤ (w.inst i).deadline := by
   obtain ⟨hg, _⟩ := step_some h
   simp [guard, checks, Checks.ok, noDeadlineBefore] at hg
   have := hg.2.1 i hi
-  simp [hd, hlive.1, hlive.2] at this
+  simp [hd, hlive.1, hlive.2, hnc, hnp] at this
   exact this
 
 /-- C15: `wait_until_idle()` returns only when the idle flag is set and the bus's history holds no pending or
